@@ -2051,7 +2051,8 @@ def check(run):
     run.assume('the WSGI/ASGI server honours the keys its specification makes mandatory (table KEY_EXEMPT in sa/rules/c04.py)')
     # floors: counted by hand on the reference tree (R1 44 = 2 apps x (6 user-code events + render statements (1 / 5) + 4 arms x 3
     # + 1 render-window result); R2 16; R3 25 = 2 x 12 + 1; R4 102 = 7 composer + 1 Vary + 8 fields + 78 status table + 8 wiring;
-    # R5 4; R6 89 = pre-try statements + constructor statements).  Kept a little below today's count so that harmless
+    # (+5 negotiation: offer order, JSON first, negotiated on every path, 2 fallback assignments guarded by `preferred is None`);
+    # R5 4; R6 89 = pre-try statements + constructor statements; R8 8 = 2 stacks x (header name + 3 input classes)).  Kept a little below today's count so that harmless
     # restructurings of the render region / fewer error classes do not make the check exit 2.
     run.rule('R1', r1_windows, 'user code and rendering run inside try/except Exception -> _handle_exception', floor=38)
     run.rule('R2', r2_selection, 'most specific registered class wins; latest registration wins; defaults installed', floor=16)
